@@ -350,6 +350,8 @@ class AbsExec:
                 raise FactsError("abstract execution budget exceeded in %s" % fr.body.path)
             blk = fr.body.blocks[bb]
             if (fr.body.path, bb) in self.abstract_heads():
+                if hasattr(self.domain, "at_head"):
+                    self.domain.at_head(self, fr, bb, loop_written_locals(fr.body, natural_loops(fr.body)[bb]))
                 for l in loop_written_locals(fr.body, natural_loops(fr.body)[bb]):
                     fr.env[l] = self.domain.havoc(self, fr, l) if hasattr(self.domain, "havoc") else TOP
             for st in blk["stmts"]:
